@@ -478,7 +478,7 @@ fn c08_texts(tier: Tier, f: &mut dyn FnMut(usize, &str)) {
     let mut idx = 0usize;
     // (1) all short texts over the critical characters
     let alpha = ['\\', 'u', '{', '}', '0', '2', '3', 'F', 'g'];
-    let maxlen = if tier == Tier::Thorough { 7 } else { 6 };
+    let maxlen = if tier == Tier::Thorough { 8 } else { 6 };
     let mut cur: Vec<String> = vec![String::new()];
     f(idx, "");
     idx += 1;
@@ -646,7 +646,7 @@ fn c08_meta(ctx: &Ctx) -> Meta {
         rule: "parser: every text of the families below is parsed and compared with an independent grammar-level reader; printer: every text viewed as a string of its own characters, every single code point 0..=0x2FFFF, and all short strings over 18 critical code points are printed, checked for printable ASCII / doubled quotes, and read back through parse_smt_literal; non-trivial = texts in which at least one escape sequence is decoded".into(),
         assumptions: vec!["the reference reader transcribes SMT-LIB 2.6: \\ud3d2d1d0 and \\u{d..} with 1-5 hex digits and value <= 0x2FFFF, every other character copied".into()],
         exhaustive: true,
-        space: format!("all texts of length <= {} over {{\\,u,{{,}},0,2,3,F,g}}; escape-shaped family (6 prefixes x brace x 0-7 digits x 6 closers); pairs of consecutive escape attempts; texts of length <= 4 with non-ASCII characters; non-ASCII prefixes in front of every escape attempt; all 196608 single code points; strings of length <= {} over 18 critical code points", if ctx.tier == Tier::Thorough { 7 } else { 6 }, if ctx.tier == Tier::Thorough { 4 } else { 3 }),
+        space: format!("all texts of length <= {} over {{\\,u,{{,}},0,2,3,F,g}}; escape-shaped family (6 prefixes x brace x 0-7 digits x 6 closers); pairs of consecutive escape attempts; texts of length <= 4 with non-ASCII characters; non-ASCII prefixes in front of every escape attempt; all 196608 single code points; strings of length <= {} over 18 critical code points", if ctx.tier == Tier::Thorough { 8 } else { 6 }, if ctx.tier == Tier::Thorough { 4 } else { 3 }),
     }
 }
 
